@@ -10,8 +10,18 @@ import solve_oracles as so
 
 MODULE = "DfolsVerif.Properties.C10"
 BUILD_TARGETS = ss.ACCEPT_TARGETS
-THEOREMS = ["Dfols.C10.C10_nruns", "Dfols.C10.C10_maxfun", "Dfols.C10.C10_restarts", "Dfols.C10.C10_small", "Dfols.C10.C10_rhoend"]
+THEOREMS = ["Dfols.C10.C10_nruns", "Dfols.C10.C10_maxfun", "Dfols.C10.C10_restarts", "Dfols.C10.C10_small", "Dfols.C10.C10_rhoend",
+            "Dfols.C10.C10_src_maxfun", "Dfols.C10.C10_src_small", "Dfols.C10.C10_src_threshold", "Dfols.C10.C10_src_rhoend",
+            "Dfols.C10.C10_src_restarts", "Dfols.C10.C10_src_success_reasons"]
+
+
+def pre_build(ctx):
+    import gen_exitsites
+    ctx.cov["exit_creation_sites_in_repo"] = gen_exitsites.regenerate(ctx)
+
+
 TRUSTED_EXTRA = [
+    "AST translator harness/gen_exitsites.py (path conditions = enclosing if/while tests of the same function with polarity; tests are compared as canonical ast.unparse text)",
     "model = event lists accepted by RunsAcc.step (hand-written mirror of the ExitInformation creation sites and the nruns bookkeeping)",
     "'success is never attached to a non-finite objective' is NOT a theorem (false when no evaluation is finite: known finding); checked by the search",
     "rho/rhoend at the exit are read from the live Controller by the wrapper of ExitInformation.__init__",
